@@ -1,8 +1,9 @@
 #!/venv/bin/python
 """Capture the C12 golden corpus.  Run with PYTHONPATH pointing at a worktree of the *pinned* commit:
    PYTHONPATH=/tmp/tc_pinned/src /venv/bin/python tools/capture_golden.py [n [seed [module prefix]]] > corpus/c12_golden.jsonl
-(the corpus is the concatenation of `320 20260929 tcvgold` and `120 20260930 tcvgoldx`, the latter captured after the generator learnt
-name_in_config spellings that sort differently from the parameter names; both filtered by tools/filter_golden.py)"""
+(the corpus is the concatenation of `320 20260929 tcvgold`, `120 20260930 tcvgoldx` — captured after the generator learnt
+name_in_config spellings that sort differently from the parameter names — and `70 20261001 tcvgoldd dotted` — config file names with dots
+in the stem, half of them in name mode; all filtered by tools/filter_golden.py)"""
 import json, logging, os, random, shutil, sys, tempfile, warnings
 from pathlib import Path
 warnings.filterwarnings('ignore'); logging.disable(logging.CRITICAL); os.environ['TQDM_DISABLE'] = '1'
@@ -13,13 +14,14 @@ from tcv import pipeline as pl, gen
 print('capturing from', taskchain.__file__, file=sys.stderr)
 SEED = int(sys.argv[2]) if len(sys.argv) > 2 else 20260929
 PREFIX = sys.argv[3] if len(sys.argv) > 3 else 'tcvgold'
+DOTTED = len(sys.argv) > 4 and sys.argv[4] == 'dotted'      # config file names with dots in the stem, half of the specs in name mode
 rng = random.Random(SEED)
 root = Path(tempfile.mkdtemp(prefix='tcv-golden-'))
 n_lines = 0
 for i in range(int(sys.argv[1]) if len(sys.argv) > 1 else 320):
-    mode = 'name' if i % 8 == 7 else 'param'
+    mode = 'name' if (i % 2 if DOTTED else i % 8 == 7) else 'param'
     alphabet = None if i % 3 else gen.SAFE
-    spec = gen.gen_key_spec(rng, modname=f'{PREFIX}{i}.tcvmod', alphabet=alphabet, keys=gen.SAFE if i % 2 else None, mode=mode)
+    spec = gen.gen_key_spec(rng, modname=f'{PREFIX}{i}.tcvmod', alphabet=alphabet, keys=gen.SAFE if i % 2 else None, mode=mode, dotted=DOTTED)
     b = pl.materialize(spec, root / f'c{i}', modname=spec['module'])
     data = root / f'd{i}'
     chain, err = pl.build(b, data, parameter_mode=(mode == 'param'))
